@@ -62,6 +62,8 @@ def make_formatter(cfg):
 
 def xcanon(e):
     """exact form of an element tree: [tag, [[k, v]...] as stored, text|None, tail or '', [kids]]"""
+    if not isinstance(e.tag, str):      # a comment / PI in the formatter's result (never on the unchanged tree): a node of its own
+        return ["#comment" if e.tag is etree.Comment else "#pi", [], e.text, e.tail or "", []]
     return [e.tag, [[k, v] for k, v in e.attrib.items()], e.text, e.tail or "", [xcanon(c) for c in e]]
 
 
@@ -1165,6 +1167,24 @@ DIFFNS_STREAM = [
 ]
 
 
+# comments INSIDE text tags (none of them followed by text: that is the comment-tail finding): prepare() must remove
+# them before the placeholder substitution sees them -- they stay, change, appear and disappear between the documents
+TTCOMMENT_STREAM = [
+    ("<doc><p>hello <b>x</b><!--note--></p></doc>", "<doc><p>hello <b>x</b><!--note--></p></doc>", ["p"], ["b"]),
+    ("<doc><p>hello <b>x</b><!--note--></p></doc>", "<doc><p>hello there <b>x</b><!--other--></p></doc>", ["p"], ["b"]),
+    ("<doc><p>one<!--c--><b>two</b> three</p></doc>", "<doc><p>one<b>two</b> three four</p></doc>", ["p"], ["b"]),
+    ("<doc><p>one<b>two</b> three</p></doc>", "<doc><p>one<!--new--><b>two</b> three</p><!--end--></doc>", ["p"], ["b"]),
+    ("<doc><p><!--first--><i>a</i> b</p><p>c<!--x--></p></doc>", "<doc><p><!--first, edited--><i>a</i> b c</p><p>c</p></doc>", ["p"], ["i"]),
+    ("<doc><sec><p>t<b>u<!--in b--></b></p></sec></doc>", "<doc><sec><p>t<b>u<!--in b, changed--></b> v</p></sec></doc>", ["p"], ["b"]),
+    ("<doc><p>a<!--1--><!--2--></p></doc>", "<doc><p>a b<!--2--></p></doc>", ["p"], []),
+]
+
+
+def gen_ttcomments():
+    return [{"kind": "ttcomments", "left": l, "right": r, "cfg": {"normalize": norm, "replace": False, "tt": tt, "fmt": fmt},
+             "opts": {}, "late": False} for l, r, tt, fmt in TTCOMMENT_STREAM for norm in (WS_NONE, WS_BOTH)]
+
+
 def gen_labelled():
     out = []
     for kind, stream in (("xmlid", XMLID_STREAM), ("diffns", DIFFNS_STREAM)):
@@ -1240,6 +1260,37 @@ def gen_prefixes(rng, n):
 LWORDS = ["alpha", "beta", "gamma", "delta", "epsilon", "zeta", "eta", "theta"]
 
 
+def gen_dmptexts(rng, n, nlong):
+    """text and tail updates whose old/new strings come from the generators of the text-diff check (C16): repeats,
+    shared halves, edits at the very start, several occurrences of one word, long line-structured texts -- so that a
+    fault in the text diff shows in what accepting / rejecting the marked output gives"""
+    from harness.props import C16 as T
+    out = []
+    pairs = []
+    for _ in range(n):
+        kind = rng.choice(["letters", "words", "repeats", "words"])
+        a = T.rand_text(rng, kind)
+        b = T.mutate(rng, a) if rng.random() < 0.7 else T.rand_text(rng, kind)
+        pairs.append((a, b))
+    pairs += [("and old old", "old old red"), ("bbbacc", "ba"), ("the end", "at the"), ("bookkeeper", "bokkeeper"), ("aaa", "aa"),
+              ("old words stay here", "new words stay here")]
+    pairs += [T.rand_long(rng) for _ in range(nlong)]
+    for a, b in pairs:
+        a, b = a.replace("\r", ""), b.replace("\r", "")
+        if a.strip() == "" or b.strip() == "" or a == b:
+            continue
+        def doc(t, tail):
+            r = etree.Element("r")
+            e = etree.SubElement(r, "a")
+            e.text = t
+            etree.SubElement(r, "b").tail = tail
+            return xml(r)
+        tail = rng.random() < 0.3
+        out.append({"kind": "texts", "left": doc("x" if tail else a, a if tail else "y"), "right": doc("x" if tail else b, b if tail else "y"),
+                    "cfg": {"normalize": WS_NONE, "replace": rng.random() < 0.4, "tt": [], "fmt": []}, "opts": {}, "late": False})
+    return out
+
+
 def gen_lines(rng, n):
     """long multi-line text nodes and tails (more than 100 characters on both sides: diff_lineMode), in which
     several separate groups of lines change at once"""
@@ -1305,10 +1356,12 @@ def gen_inputs(run, rng):
     cases += gen_reserved()
     cases += gen_twopfx()
     cases += gen_owndiff()
+    cases += gen_ttcomments()
     cases += gen_labelled()
     cases += gen_texts(rng, quick)
     cases += gen_prefixes(rng, 30 if quick else 300)
     cases += gen_lines(rng, 5 if quick else 60)
+    cases += gen_dmptexts(rng, 150 if quick else 1500, 4 if quick else 40)
     cases += gen_struct(rng, 500 if quick else 5000)
     cases += gen_texttags(rng, 500 if quick else 5000)
     cases += gen_subattrs(rng, 60 if quick else 600)
